@@ -2684,7 +2684,11 @@ class Executor:
         if name == "dict" and not args:
             return DictV(None, "scalar", None, None)
         if name in ("str",) and isinstance(args[0], Scalar):
-            return args[0]
+            if args[0].pytype == "str" or args[0].z.sort() != Atom:
+                return args[0]
+            # str(label) of a label that need not be a string: some string, the same for equal labels, not necessarily different for
+            # different labels (str(1) == str("1"))
+            return Scalar(z3.Function("str_of", Atom, Atom)(args[0].z), "str")
         if name == "int" and len(args) == 1 and isinstance(args[0], Scalar) and args[0].z.sort() == I:
             return args[0]
         raise Unsupported(f"builtin {name} on {[type(a).__name__ for a in args]} {sorted(kwargs)}")
